@@ -316,6 +316,11 @@ func (prop) Run(t *testing.T, tape *kernel.Tape, sc kernel.Scenario) *kernel.Res
 		failingMember = tape.Choose(len(l)+1, "failing-member-position")
 		env.Fault("a-composed-writer-fails")
 	}
+	via := tape.Weighted("submit-via", 3, 1, 1) // 0 Runtime.Submit 1 the OpenTelemetry wrapper 2 the OpenTracing wrapper
+	opContext := tape.Bool(2, "operation-carries-a-context")
+	if via != 0 {
+		env.Fault("submitted-through-a-tracing-wrapper")
+	}
 	debugMode := tape.Bool(4, "debug-mode")
 	earlierFailed := tape.Bool(3, "earlier-call-with-failing-streamed-body")
 	earlierFailAt := tape.Choose(300, "earlier-fail-at")
@@ -446,6 +451,13 @@ func (prop) Run(t *testing.T, tape *kernel.Tape, sc kernel.Scenario) *kernel.Res
 		}
 	case "apikey-header", "apikey-query":
 		in := strings.TrimPrefix(scheme, "apikey-")
+		// the constructors take the location in any letter case
+		switch tape.Choose(4, "location-spelling") {
+		case 1:
+			in = strings.ToUpper(in)
+		case 2:
+			in = strings.ToUpper(in[:1]) + in[1:]
+		}
 		if useCtx {
 			auth = security.APIKeyAuthCtx(keyName, in, func(ctx context.Context, tok string) (context.Context, any, error) {
 				calls = append(calls, call{token: tok, ctxTagged: true})
@@ -614,7 +626,17 @@ func (prop) Run(t *testing.T, tape *kernel.Tape, sc kernel.Scenario) *kernel.Res
 					calls, rec.results = nil, nil
 					*world.Slots[0] = simapi.Obs{AuthScopes: map[string][]string{}}
 				}
-				_, submitErr = rt.Submit(cop)
+				submit := rt.Submit
+				switch via {
+				case 1:
+					submit = rt.WithOpenTelemetry().Submit
+				case 2:
+					submit = rt.WithOpenTracing().Submit
+				}
+				if via != 0 && opContext {
+					cop.Context = context.Background() // the tracing wrappers only get to work for operations that carry a context
+				}
+				_, submitErr = submit(cop)
 				if followUp && want != nil {
 					// a later call to another operation served by the same authenticator must not disturb what the first callback was given
 					mainCalls, mainResults, mainSlot := len(calls), len(rec.results), *world.Slots[0]
